@@ -18,12 +18,30 @@ Record scaled := {
   s_orig : list Q                   (* predictions of the original afterwards *)
 }.
 
+(* a history on the RESULT of a scaling: r = DL * k (or DL / k), then in-place operations on r *)
+Inductive sop := SMul (k : Q) | SDiv (k : Q) | SAdd (k : Q).   (* r *= k | r /= k | r += other * k *)
+Record hist := {
+  h_k : Q;
+  h_div : bool;                         (* r = DL / k instead of DL * k *)
+  h_ops : list sop;
+  h_fresh : bool;                       (* "r is not DL" *)
+  h_steps : list (dres (list Q) * dres (list Q))
+     (* (r.predict(K), DL.predict(K)) after creating r and after every operation *)
+}.
+
 Record c20_case := {
   d_X : table;
-  d_tree : rtree;
+  d_f32 : bool;                         (* every data value is exactly representable in float32 *)
+  d_tree : rtree;                       (* the tree's arrays as they were BEFORE the conversion *)
   d_impl : dres (list Q);
-  d_sklearn : option (list Q);
-  d_scaled : list scaled
+  d_sklearn : option (list Q);          (* tree.predict(X) before the conversion *)
+  d_sklearn_after : option (list Q);    (* ... and after it *)
+  d_input_kept : bool;                  (* value / threshold / children / feature arrays bit-identical afterwards *)
+  d_impl2 : dres (list Q);              (* a second conversion of the same tree (other interval engine) *)
+  d_scaled : list scaled;
+  d_tree2 : rtree;                      (* another tree on the same table, for r += other * k *)
+  d_other : dres (list Q);              (* its lattice's predictions *)
+  d_hists : list hist
 }.
 
 Definition tol : Q := (1 # 1000000000)%Q.
@@ -58,8 +76,50 @@ Definition m_scaled (c : c20_case) (s : scaled) : dres (list Q) :=
       end
   end.
 
+Definition m_other (c : c20_case) : dres (list Q) :=
+  match from_tree (d_X c) (d_tree2 c) with
+  | DOk dl => DOk (predict (d_X c) dl)
+  | DErr e => DErr e
+  end.
+
+(* expected predictions of r along a history, from the predictions p of DL.  [r += other * k]
+   (the sum of two lattices) is not part of the property and only serves to expose aliasing
+   between r and DL: from the first SAdd on, r itself is no longer constrained (None), only
+   the original's predictions are. *)
+Definition apply_sop (cur : option (list Q)) (o : sop) : option (list Q) :=
+  match cur, o with
+  | Some l, SMul k => Some (map (fun v => (v * k)%Q) l)
+  | Some l, SDiv k => Some (map (fun v => (v / k)%Q) l)
+  | _, _ => None
+  end.
+Fixpoint hist_expected (cur : option (list Q)) (ops : list sop) : list (option (list Q)) :=
+  match ops with
+  | [] => [cur]
+  | o :: os => cur :: hist_expected (apply_sop cur o) os
+  end.
+Definition hist_start (h : hist) (p : list Q) : option (list Q) :=
+  Some (if h_div h then map (fun v => (v / h_k h)%Q) p else map (fun v => (v * h_k h)%Q) p).
+
+(* the implementation may stop a history early (an exception in +=): compare what is there *)
+Definition steps_close (steps : list (dres (list Q) * dres (list Q))) (exp_r : list (option (list Q))) (p : list Q) : bool :=
+  Nat.leb (length steps) (length exp_r) &&
+  forallb (fun se => match snd se with
+                     | Some e => dres_close (fst (fst se)) (DOk e)
+                     | None => true
+                     end && dres_close (snd (fst se)) (DOk p))
+          (combine steps exp_r).
+
+Definition hist_same (c : c20_case) (h : hist) : bool :=
+  match m_predict c, m_other c with
+  | DOk p, DOk po => steps_close (h_steps h) (hist_expected (hist_start h p) (h_ops h)) p
+  | _, _ => true
+  end.
+
 Definition c20_same (c : c20_case) : bool :=
   dres_close (d_impl c) (m_predict c) &&
+  dres_close (d_impl2 c) (m_predict c) &&
+  dres_close (d_other c) (m_other c) &&
+  forallb (hist_same c) (d_hists c) &&
   forallb (fun s => dres_close (s_pred s) (m_scaled c s) &&
                     match m_predict c with DOk p => qs_close (s_orig s) p | DErr _ => true end)
           (d_scaled c).
@@ -67,13 +127,42 @@ Definition c20_same (c : c20_case) : bool :=
 Definition spec_predictions (c : c20_case) : list Q :=
   map (tree_predict (d_tree c)) (d_X c).
 
+Definition orig_kept (p : list Q) (h : hist) : bool :=
+  h_fresh h &&
+  forallb (fun st => match snd st with DOk o => qs_same o p | DErr _ => false end) (h_steps h).
+
+Definition hist_spec_ok (c : c20_case) (p : list Q) (h : hist) : bool :=
+  orig_kept p h &&
+  steps_close (h_steps h) (hist_expected (hist_start h (spec_predictions c)) (h_ops h)) p.
+
+(* the conversion must not touch the tree it reads: scikit-learn's own predictions are the same
+   before and after, the arrays are bit-identical, and a second conversion gives the same lattice *)
+Definition input_kept_ok (c : c20_case) : bool :=
+  d_input_kept c &&
+  match d_sklearn c, d_sklearn_after c with
+  | Some a, Some b => qs_same a b
+  | None, None => true
+  | _, _ => false
+  end.
+
 Definition c20_spec_ok (c : c20_case) : bool :=
+  (* data outside float32 (recorded finding 1): the property at face value - the lattice must
+     predict what scikit-learn predicts *)
+  (if d_f32 c then true
+   else match d_impl c, d_sklearn c with
+        | DOk p, Some sk => qs_close p sk
+        | DErr _, Some _ => false
+        | _, None => true
+        end) &&
+  input_kept_ok c &&
   if negb (fitted (d_X c) (d_tree c)) then true else
   match d_impl c with
   | DErr _ => false
   | DOk p =>
       qs_close p (spec_predictions c) &&
       match d_sklearn c with Some sk => qs_close sk (spec_predictions c) | None => true end &&
+      match d_impl2 c with DOk p2 => qs_close p2 (spec_predictions c) | DErr _ => false end &&
+      forallb (hist_spec_ok c p) (d_hists c) &&
       forallb (fun s =>
                  qs_same (s_orig s) p &&
                  match s_mode s, s_pred s with
@@ -85,6 +174,11 @@ Definition c20_spec_ok (c : c20_case) : bool :=
               (d_scaled c)
   end.
 
-Definition c20_check (c : c20_case) : nat := code_of (c20_same c) (c20_spec_ok c).
+Definition c20_check (c : c20_case) : nat :=
+  let code := code_of (c20_same c) (c20_spec_ok c) in
+  match code with
+  | O => O
+  | _ => code + (if d_f32 c then 0 else 10)     (* recorded finding 1: guard = d_f32 *)
+  end.
 Definition c20_show (c : c20_case) :=
   (m_predict c, spec_predictions c, fitted (d_X c) (d_tree c), map (m_scaled c) (d_scaled c)).
